@@ -90,6 +90,7 @@ CONTRACTS = {
             'null_iff_full': 'iff(result == NULL, old(d.parena) + pad + bytes > old(d.narena) - old(d.pstack))',
             'aligned': 'implies(result != NULL, pmod(u64(result), alignment) == 0)',
             'above_live_arena': 'implies(result != NULL, A + old(d.parena) <= u64(result))',
+            'first_fit': 'implies(result != NULL, u64(result) == A + old(d.parena) + pad)',
             'below_stack': 'implies(result != NULL, u64(result) + bytes <= top)',
             'bump': 'implies(result != NULL, d.parena == u64(result) - A + bytes)',
             'frame': 'd.pstack == old(d.pstack) and d.narena == old(d.narena) and u64(d.arena) == old(u64(d.arena)) and d.pbase == old(d.pbase)',
